@@ -6,6 +6,17 @@ import os
 HERE = os.path.dirname(os.path.dirname(os.path.abspath(__file__)))
 
 CHECKS = {
+    "C01": dict(
+        category="exploration",
+        technique="exhaustive operand-form enumeration + Hypothesis programs, differential against an independent PDP-11 encoder and decoder",
+        text="Every accepted mnemonic (set compared with the reference in both directions) is assembled with every operand-form tuple of its "
+             "format (all single-operand forms, all register/accumulator fields, every inline value with its rejected neighbours; the 66x66 "
+             "double-operand product sampled at 6% in the quick tier and complete in the thorough tier) and the image is compared with an "
+             "independently written encoder and, separately, read back by an independent decoder at statement boundaries. Random programs "
+             "vary operand values (16-bit boundaries, out-of-range values that must be refused), symbolic spelling, labels, link bases, "
+             "register/radix spellings and .repeat groups. Exploration level: form coverage is complete, value coverage is sampled.",
+        note="Trusted: vf/ref/pdp11.py written from the handbook (231 rows independent, 21 pinned rows are change detection only).",
+        design="4/C01"),
     "C14": dict(
         category="exploration",
         technique="exhaustive enumeration (256 bytes, 0x110000 code points) + Hypothesis strings against Python's koi8-r/ASCII and the round-trip law",
